@@ -62,7 +62,12 @@ func rawEntry(l slog.Logger) *slog.Entry { return l.Root() }
 var hostileTitles = map[slog.Level]string{
 	slog.Level(90): `we"ird`, slog.Level(91): `back\slash`, slog.Level(92): "two\nlines\r", slog.Level(93): `x" user="root`, slog.Level(94): "tab\there",
 	slog.Level(95): "ctl\x01\x7f", slog.Level(96): "caf\u00e9 \u00fc", slog.Level(97): "bad\xffutf8", slog.Level(98): `</b>&amp;`, slog.Level(99): "\x1b[31mred",
+	// titles with capital letters (the title is printed as it was registered), and a severity that is gated like Always
+	slog.Level(100): "NOTICE", slog.Level(101): "SeedHint", slog.Level(102): "\u00c4RGER", lvlLikeAlways: "audit-always",
 }
+
+// lvlLikeAlways is registered as "treated as Always": that is how it is GATED; its records are records like any other
+const lvlLikeAlways = slog.Level(103)
 
 var hostileTitleLevels []slog.Level
 
@@ -71,9 +76,13 @@ func registerHostileTitles() {
 	if hostileTitleLevels != nil {
 		return
 	}
-	for l := slog.Level(90); l <= 99; l++ {
-		if err := slog.RegisterLevel(l, hostileTitles[l]); err == nil && l.String() == hostileTitles[l] {
-			hostileTitleLevels = append(hostileTitleLevels, l)
+	for l := slog.Level(90); l <= 103; l++ {
+		var opts []slog.RegOpt
+		if l == lvlLikeAlways {
+			opts = append(opts, slog.RegWithTreatedAsLevel(slog.AlwaysLevel))
+		}
+		if err := slog.RegisterLevel(l, hostileTitles[l], opts...); err == nil {
+			hostileTitleLevels = append(hostileTitleLevels, l) // (accepted: from now on the severity carries THAT title)
 		}
 	}
 	gen.ExtraLevels = hostileTitleLevels // a Level handed over as an attribute VALUE prints its title: a string like any other
